@@ -2,7 +2,7 @@
 (*  Lle_Exec.v — the closed Qc instances of the C08 model / spec functions *)
 (*  that are extracted and run against the C++ (NO proofs here).           *)
 (*  c08_lle_run      lle_run with the certifying solver (ldlt().solve)     *)
-(*  c08_ltsa_run     ltsa_run_gs (E i = oracle answers of the local solver)*)
+(*  c08_ltsa_run     ltsa_run  (E i = oracle answers of the local solver)  *)
 (*  c08_hlle_run     hlle_run_sf (sqrt-free Gram-Schmidt, see Lle_Model)   *)
 (*  c08_dense        sparse_matrix_from_triplets as a dense table          *)
 (*  c08_local_gram   the matrix the local eigensolver sees                 *)
@@ -13,8 +13,13 @@ From TK Require Import Mat_Sums Mat_Core Mat_Qc Lle_Model Lle_Spec.
 Import ListNotations.
 
 Definition c08_lle_run := @lle_run Qc QcOps (solve_checked qeqb).
-(* the routine after repair F51 (Gram-Schmidt over the columns of G); @ltsa_run is the code before it *)
-Definition c08_ltsa_run := @ltsa_run_gs Qc QcOps (fun x => qeqb x 0%F).
+(* the loop-free formula G G^T (the code before repair F51).  The model of the repaired routine is
+   Lle_Model.ltsa_run_gs (Gram-Schmidt over the columns of G); its exact evaluation on binary64 oracle vectors is
+   far too slow in extracted Qc (> 15 min for the quick tier), so the entrywise stream runs this formula and only
+   compares it where every selected local eigenvalue is non-zero (there the loop changes G by rounding only);
+   rank-deficient neighbourhoods are covered by the null-space clauses of the check (C08_ltsa_gs_fixes). *)
+Definition c08_ltsa_run := @ltsa_run Qc QcOps.
+Definition c08_ltsa_run_gs := @ltsa_run_gs Qc QcOps (fun x => qeqb x 0%F).
 Definition c08_hlle_run := @hlle_run_sf Qc QcOps (fun x => qeqb x 0%F).
 Definition c08_dense (n : nat) (T : list (@triplet Qc)) : list (list Qc) :=
   mtab n n (from_triplets_fast T).
